@@ -3,6 +3,8 @@ package roratelimit
 import (
 	"context"
 	"time"
+
+	"github.com/samber/ro"
 )
 
 // C20 (native limiter): the real composition GroupBy -> MergeMap(WindowWhen(Interval)
@@ -71,3 +73,66 @@ func vC20Native(n int) {
 
 func vhC20_native_n2() { vC20Native(2) }
 func vhC20_native_n3() { vC20Native(3) }
+
+// C20 (native limiter, slow consumer): the final observer takes longer than a window to handle one
+// item (the clock advances inside its callback), so a window boundary passes while an item is in
+// flight.  No item is duplicated, the output keeps the input order, no key exceeds quota x windows.
+func vC20NativeSlow(n int) {
+	quota := vInt64("quota")
+	vAssume(quota >= 1)
+	vAssume(quota <= 2)
+	window := int64(1000)
+	src := &vSource{}
+	obs := NewRateLimiter[int64](quota, time.Duration(window), vKeyOf)(src.obs())
+	slowAt := vChoice("slowAt", n)
+	var got []int64
+	terminal := 0
+	seen := 0
+	vGo(func() {
+		obs.SubscribeWithContext(context.Background(), ro.NewObserver(
+			func(v int64) {
+				got = append(got, v)
+				if seen == slowAt {
+					seen++
+					vAdvance(window + 1) // a slow consumer: more than one window passes during this callback
+					vQuiesce()
+					return
+				}
+				seen++
+			},
+			func(err error) { terminal += 10 },
+			func() { terminal++ },
+		))
+	})
+	vQuiesce()
+	var sent []int64
+	for i := 0; i < n; i++ {
+		v := int64(100 + i)
+		sent = append(sent, v)
+		src.emit(vStep{vkNext, v})
+		vQuiesce()
+	}
+	src.emit(vStep{kind: vkComplete})
+	vQuiesce()
+	// the output is a subsequence of the input: nothing duplicated, order kept
+	k := 0
+	for _, v := range got {
+		for k < len(sent) && sent[k] != v {
+			k++
+		}
+		vAssert(k < len(sent), "native limiter: an item was duplicated or delivered out of order when a window boundary passed during a delivery")
+		k++
+	}
+	cnt := map[string]int64{}
+	for _, v := range got {
+		cnt[vKeyOf(v)]++
+	}
+	for _, c := range cnt {
+		vAssert(c <= 2*quota, "native limiter: more items of one key passed than the quota allows for the windows touched")
+	}
+	vAssert(terminal == 1, "native limiter: the completion of the source was not propagated")
+	vReach("end")
+}
+
+func vhC20_nativeslow_n2() { vC20NativeSlow(2) }
+func vhC20_nativeslow_n3() { vC20NativeSlow(3) }
